@@ -173,3 +173,42 @@ pub fn position_of(lines: &[Line]) -> Pos {
 pub fn any_small(s: &mut Src) -> Pos {
     gen::g_small(s).0
 }
+
+/// Reference-side reading of a position command (valid commands only: `position startpos|fen <6
+/// fields> [moves ...]`, arbitrary white space).  Returns the game: all positions from the start to
+/// the final one.  Used by the structural replays, which re-run a saved case from its text.
+pub fn ref_position(text: &str) -> Result<Vec<Pos>, String> {
+    let t: Vec<&str> = text.split_whitespace().collect();
+    if t.first() != Some(&"position") {
+        return Err(format!("not a position command: {}", text));
+    }
+    let (mut p, rest) = match t.get(1) {
+        Some(&"startpos") => (Pos::startpos(), &t[2..]),
+        Some(&"fen") if t.len() >= 8 => (Pos::from_fen(&t[2..8].join(" ")).map_err(|e| e.to_string())?.0, &t[8..]),
+        _ => return Err(format!("malformed position command: {}", text)),
+    };
+    let mut game = vec![p.clone()];
+    if let Some(&"moves") = rest.first() {
+        for m in &rest[1..] {
+            let mv = p.find_uci(m).ok_or_else(|| format!("move {} is not legal in {}", m, p.fen4()))?;
+            p = p.make(mv);
+            game.push(p.clone());
+        }
+    }
+    Ok(game)
+}
+
+/// The position a process holds after the given command lines (only position and ucinewgame
+/// lines change it).
+pub fn ref_current(lines: &[String]) -> Result<Pos, String> {
+    let mut p = Pos::startpos();
+    for l in lines {
+        let first = l.split_whitespace().next().unwrap_or("");
+        if first == "position" {
+            p = ref_position(l)?.pop().unwrap();
+        } else if first == "ucinewgame" {
+            p = Pos::startpos();
+        }
+    }
+    Ok(p)
+}
